@@ -41,6 +41,8 @@ pub struct GenOpts {
     pub usage_fallback: bool,
     /// `any` / `literal` parsers, `.anywhere()` (only where no expectation about values is made)
     pub any: bool,
+    /// adjacent groups may end in an optional word member (`--point X [Y]`)
+    pub adjacent_optional_words: bool,
     /// custom help/version flag names
     pub custom_help: bool,
     /// chains of `adjacent()` commands (`cmd1 --a cmd2 --b cmd1 ..`)
@@ -76,6 +78,7 @@ impl GenOpts {
             twins: false,
             usage_fallback: false,
             any: false,
+            adjacent_optional_words: false,
             custom_help: false,
             adjacent_cmds: false,
         }
@@ -108,6 +111,7 @@ impl GenOpts {
             twins: false,
             usage_fallback: false,
             any: false,
+            adjacent_optional_words: false,
             custom_help: false,
             adjacent_cmds: false,
         }
@@ -622,6 +626,13 @@ impl<'a> Pool<'a> {
         if self.rng.chance(1, 2) {
             for _ in 0..self.rng.range(1, 3) {
                 fields.push(Spec::Item(self.pos_item(Strict::Any)));
+            }
+            if self.o.adjacent_optional_words && self.rng.chance(1, 3) {
+                if self.rng.chance(1, 2) {
+                    fields.truncate(1);
+                }
+                let it = Spec::Item(self.pos_item(Strict::Any));
+                fields.push(Spec::wrap(W::Optional { catch: false }, self.id(), it));
             }
         } else {
             for _ in 0..self.rng.range(1, 2) {
